@@ -56,62 +56,72 @@ theorem bindCommit_ips (s : State) (pod : Pod) (ns name : String) (uid : Nat) (n
     · exact map_toHInfo_ip s ips
 
 /-- Bind when the addresses `ips` (one per requested range, or the one chosen owned address) are already owned: no
-    allocation; "waiting for delete event" if one of them carries another incarnation's uid; otherwise the answer, if
-    ok, lists exactly `ips` in request order -/
+    allocation; "waiting for delete event" if a record of the key carries another incarnation's uid; otherwise the
+    answer, if ok, lists exactly `ips` in request order -/
 theorem bind_found (s : State) (ns name : String) (uid : Nat) (node : String) (ch : Choice) (pod : Pod) (ips : List IP)
     (hl : Tbl.get s.vPods (ns, name) = some pod) (hw : pod.wants = true)
     (hinfos : bindInfos s pod ch = some (ips.map some)) (hne : ips ≠ [])
     (hok : (bind Facts.good s ns name uid node ch).2.res = .ok) :
     (bind Facts.good s ns name uid node ch).2.ips.map (·.ip) = ips ∧
-    (∀ ip, ip ∈ ips → ∀ r, Tbl.get s.alloc ip = some r → r.uid = 0 ∨ r.uid = pod.uid) := by
+    (∀ ip, ip ∈ ipsOfKey s (keyOf pod) → ∀ r, Tbl.get s.alloc ip = some r → r.uid = 0 ∨ r.uid = pod.uid) := by
   unfold bind at hok ⊢
-  simp only [hl, hw, hinfos, good_bindChecksUID, Bool.true_and, Bool.not_true, Bool.false_eq_true, if_false,
-    bindAlloc_found s pod node _ ips ch.pick hne, filterMap_map_some] at hok ⊢
+  simp only [hl, hw, Bool.not_true, Bool.false_eq_true, if_false] at hok ⊢
   split at hok
   · exact absurd hok (by simp [Out.err])
-  · rename_i hg
-    rw [if_neg hg]
-    constructor
-    · split at hok
-      · rename_i hbl
-        simp only [hbl] at hok ⊢
-        exact bindCommit_ips _ _ _ _ _ _ _ hok
-      · rename_i e hbl
-        exfalso
-        simp only at hok
-        cases hr : (bindLoop s (keyOf pod) node { policy := policyOf pod, node := node, uid := pod.uid } ips ips).2 with
-        | ok => exact hbl hr
-        | err c => rw [hr] at hok; cases hok
-        | inadmissible => rw [hr] at hok; cases hok
-    · intro ip hm r hr
-      rw [List.any_eq_true] at hg
-      by_cases h0 : r.uid = 0
-      · exact Or.inl h0
-      · by_cases h1 : r.uid = pod.uid
-        · exact Or.inr h1
-        · exfalso
-          apply hg
-          refine ⟨ip, hm, ?_⟩
-          rw [hr]
-          simp [h0, h1]
+  · rename_i hls
+    rw [if_neg hls]
+    simp only [hinfos, good_bindChecksUID, Bool.true_and, bindGuardIPs, good_bindUidGuardCoversWholeKey, if_true,
+      bindAlloc_found s pod node _ ips ch.pick hne, filterMap_map_some] at hok ⊢
+    split at hok
+    · exact absurd hok (by simp [Out.err])
+    · rename_i hg
+      rw [if_neg hg]
+      constructor
+      · cases hr : (bindLoop s (keyOf pod) node { policy := policyOf pod, node := node, uid := pod.uid } ips ips).2 with
+        | ok =>
+          simp only [hr] at hok ⊢
+          exact bindCommit_ips _ _ _ _ _ _ _ hok
+        | err c => simp only [hr] at hok; cases hok
+        | inadmissible => simp only [hr] at hok; cases hok
+      · intro ip hm r hr
+        rw [List.any_eq_true] at hg
+        by_cases h0 : r.uid = 0
+        · exact Or.inl h0
+        · by_cases h1 : r.uid = pod.uid
+          · exact Or.inr h1
+          · exfalso
+            apply hg
+            refine ⟨ip, hm, ?_⟩
+            rw [hr]
+            simp [h0, h1]
 
-/-- the UID-guard wait: an owned address that still carries the uid of another incarnation makes Bind answer
+/-- the UID-guard wait: a record of the key that still carries the uid of another incarnation makes Bind answer
     "waiting for delete event" and change nothing - the new incarnation is NOT given another address -/
-theorem bind_waits (s : State) (ns name : String) (uid : Nat) (node : String) (ch : Choice) (pod : Pod) (ips : List IP)
-    (hl : Tbl.get s.vPods (ns, name) = some pod) (hw : pod.wants = true)
-    (hinfos : bindInfos s pod ch = some (ips.map some))
-    (ip : IP) (r : Rec) (hm : ip ∈ ips) (hr : Tbl.get s.alloc ip = some r) (h0 : r.uid ≠ 0) (h1 : r.uid ≠ pod.uid) :
+theorem bind_waits (s : State) (ns name : String) (uid : Nat) (node : String) (ch : Choice) (pod : Pod)
+    (infos : List (Option IP))
+    (hl : Tbl.get s.vPods (ns, name) = some pod) (hw : pod.wants = true) (hu : uid = 0 ∨ uid = pod.uid)
+    (hinfos : bindInfos s pod ch = some infos)
+    (ip : IP) (r : Rec) (hm : ip ∈ ipsOfKey s (keyOf pod)) (hr : Tbl.get s.alloc ip = some r) (h0 : r.uid ≠ 0)
+    (h1 : r.uid ≠ pod.uid) :
     bind Facts.good s ns name uid node ch = (s, Out.err "waiting-for-delete") := by
   unfold bind
-  simp only [hl, hw, hinfos, good_bindChecksUID, Bool.true_and, Bool.not_true, Bool.false_eq_true, if_false, filterMap_map_some]
+  simp only [hl, hw, Bool.not_true, Bool.false_eq_true, if_false]
   split
-  · rfl
-  · rename_i hg
+  · rename_i hls
     exfalso
-    apply hg
-    rw [List.any_eq_true]
-    refine ⟨ip, hm, ?_⟩
-    rw [hr]; simp [h0, h1]
+    simp only [good_bindChecksListerUID, Bool.true_and, Bool.and_eq_true, bne_iff_ne, ne_eq] at hls
+    rcases hu with hu | hu
+    · exact hls.1.1 hu
+    · exact hls.2 hu.symm
+  · simp only [hinfos, good_bindChecksUID, Bool.true_and, bindGuardIPs, good_bindUidGuardCoversWholeKey, if_true]
+    split
+    · rfl
+    · rename_i hg
+      exfalso
+      apply hg
+      rw [List.any_eq_true]
+      refine ⟨ip, hm, ?_⟩
+      rw [hr]; simp [h0, h1]
 
 /-- without requested ranges Bind looks at ONE owned address: any of them (`ipInfos[:1]`, map order) -/
 theorem bindInfos_noranges (s : State) (pod : Pod) (ch : Choice) (hr : pod.ranges = []) (infos : List (Option IP))
@@ -179,49 +189,51 @@ theorem reserve_own_keeps (s : State) (k : Key) (ip : IP) :
     · exact kk
     · rw [k1, k2]
 
-/-- with coherent tables and no failing call it clears the uid of every record of the key -/
-theorem reserveLoop_uid (k : Key) (ips : List IP) :
+/-- a record whose uid is already the one `ReserveIP` writes keeps it -/
+theorem reserveLoop_uid_stable (k : Key) (A : Attr) (ip : IP) : ∀ (l : List IP) (s0 : State) (r0 : Rec),
+    Tbl.get s0.alloc ip = some r0 → r0.uid = A.uid →
+    ∀ r1, Tbl.get (reserveLoop s0 k k A l).1.alloc ip = some r1 → r1.uid = A.uid := by
+  intro l
+  induction l with
+  | nil =>
+    intro s0 r0 h0 hu r1 h1
+    simp only [reserveLoop] at h1
+    rw [h0] at h1; cases h1; exact hu
+  | cons x l ihl =>
+    intro s0 r0 h0 hu r1 h1
+    unfold reserveLoop at h1
+    split at h1
+    · exact ihl s0 r0 h0 hu r1 h1
+    · rename_i rx hrx
+      dsimp only at h1
+      split at h1
+      · exact ihl s0 r0 h0 hu r1 h1
+      · split at h1
+        · exact ihl s0 r0 h0 hu r1 h1
+        · have st := stUpdate_step s0 x (rx.assign k { A with policy := rx.policy } s0.clock)
+          split at h1
+          · rw [st.alloc, h0] at h1; cases h1; exact hu
+          · by_cases hxi : x = ip
+            · subst hxi
+              exact ihl _ (rx.assign k { A with policy := rx.policy } s0.clock) (Tbl.get_set_self _ _ _) rfl r1 h1
+            · exact ihl _ r0 (by
+                show Tbl.get (Tbl.set _ _ _) _ = _
+                rw [Tbl.get_set_ne _ _ hxi, st.alloc]; exact h0) hu r1 h1
+
+/-- with coherent tables and no failing call `ReserveIP(k, k, A)` writes `A.uid` into every record of the key -/
+theorem reserveLoop_uid (k : Key) (A : Attr) (ips : List IP) :
     ∀ s, Coherent s → FaultSpent s →
-      ∀ ip, ip ∈ ips → ∀ r, Tbl.get (reserveLoop s k k {} ips).1.alloc ip = some r → r.key = k → r.uid = 0 := by
+      ∀ ip, ip ∈ ips → ∀ r, Tbl.get (reserveLoop s k k A ips).1.alloc ip = some r → r.key = k → r.uid = A.uid := by
   induction ips with
   | nil => intro s _ _ ip hm; cases hm
   | cons j t ih =>
     intro s hc hf ip hm r hr hk
-    -- a record that already has uid 0 keeps it: the loop only ever writes uid 0
-    have stable : ∀ (l : List IP) (s0 : State) (r0 : Rec), Tbl.get s0.alloc ip = some r0 → r0.uid = 0 →
-        ∀ r1, Tbl.get (reserveLoop s0 k k {} l).1.alloc ip = some r1 → r1.uid = 0 := by
-      intro l
-      induction l with
-      | nil =>
-        intro s0 r0 h0 hu r1 h1
-        simp only [reserveLoop] at h1
-        rw [h0] at h1; cases h1; exact hu
-      | cons a l ihl =>
-        intro s0 r0 h0 hu r1 h1
-        unfold reserveLoop at h1
-        split at h1
-        · exact ihl s0 r0 h0 hu r1 h1
-        · rename_i ra hra
-          dsimp only at h1
-          split at h1
-          · exact ihl s0 r0 h0 hu r1 h1
-          · split at h1
-            · exact ihl s0 r0 h0 hu r1 h1
-            · have st := stUpdate_step s0 a (ra.assign k { ({} : Attr) with policy := ra.policy } s0.clock)
-              split at h1
-              · rw [st.alloc, h0] at h1; cases h1; exact hu
-              · by_cases hai : a = ip
-                · subst hai
-                  exact ihl _ (ra.assign k { ({} : Attr) with policy := ra.policy } s0.clock) (Tbl.get_set_self _ _ _) rfl r1 h1
-                · exact ihl _ r0 (by
-                    show Tbl.get (Tbl.set _ _ _) _ = _
-                    rw [Tbl.get_set_ne _ _ hai, st.alloc]; exact h0) hu r1 h1
     unfold reserveLoop at hr
     split at hr
     · rename_i hn
       rcases List.mem_cons.mp hm with e | hm'
       · subst e
-        obtain ⟨r1, g1, _, _⟩ := reserveLoop_recs k k {} t s ip r hr
+        obtain ⟨r1, g1, _, _⟩ := reserveLoop_recs k k A t s ip r hr
         rw [hn] at g1; cases g1
       · exact ih s hc hf ip hm' r hr hk
     · rename_i rj hrj
@@ -231,7 +243,7 @@ theorem reserveLoop_uid (k : Key) (ips : List IP) :
         have hkj' : rj.key ≠ k := by simpa using hkj
         rcases List.mem_cons.mp hm with e | hm'
         · subst e
-          obtain ⟨r1, g1, _, kk⟩ := reserveLoop_recs k k {} t s ip r hr
+          obtain ⟨r1, g1, _, kk⟩ := reserveLoop_recs k k A t s ip r hr
           rw [hrj] at g1; cases g1
           exfalso
           rcases kk with kk | ⟨k1, _⟩
@@ -242,28 +254,29 @@ theorem reserveLoop_uid (k : Key) (ips : List IP) :
         · rename_i hsame
           rcases List.mem_cons.mp hm with e | hm'
           · subst e
-            exact stable t s rj hrj hsame.2.1 r hr
+            exact reserveLoop_uid_stable k A ip t s rj hrj hsame.2.1 r hr
           · exact ih s hc hf ip hm' r hr hk
-        · have st := stUpdate_step s j (rj.assign k { ({} : Attr) with policy := rj.policy } s.clock)
-          have ss := stUpdate_store s j (rj.assign k { ({} : Attr) with policy := rj.policy } s.clock)
-          have hok : (stUpdate s j (rj.assign k { ({} : Attr) with policy := rj.policy } s.clock)).2 = true :=
+        · have st := stUpdate_step s j (rj.assign k { A with policy := rj.policy } s.clock)
+          have ss := stUpdate_store s j (rj.assign k { A with policy := rj.policy } s.clock)
+          have hok : (stUpdate s j (rj.assign k { A with policy := rj.policy } s.clock)).2 = true :=
             stUpdate_ok_of_spent s j _ hf (by rw [hc.agree, hrj]; rfl)
           simp only [hok, Bool.not_true, Bool.false_eq_true, if_false] at hr
-          have hc1 : Coherent { (stUpdate s j (rj.assign k { ({} : Attr) with policy := rj.policy } s.clock)).1 with
-              alloc := Tbl.set (stUpdate s j (rj.assign k { ({} : Attr) with policy := rj.policy } s.clock)).1.alloc j
-                (rj.assign k { ({} : Attr) with policy := rj.policy } s.clock) } :=
-            coherent_set j rj _ hc hrj (by simp [st.frame.pools]) (by simp [st.alloc]) (by simp [ss.1 hok]) (by simp [st.free])
-          have hf1 : FaultSpent { (stUpdate s j (rj.assign k { ({} : Attr) with policy := rj.policy } s.clock)).1 with
-              alloc := Tbl.set (stUpdate s j (rj.assign k { ({} : Attr) with policy := rj.policy } s.clock)).1.alloc j
-                (rj.assign k { ({} : Attr) with policy := rj.policy } s.clock) } := stUpdate_spent s j _ hf
+          have hc1 : Coherent { (stUpdate s j (rj.assign k { A with policy := rj.policy } s.clock)).1 with
+              alloc := Tbl.set (stUpdate s j (rj.assign k { A with policy := rj.policy } s.clock)).1.alloc j
+                (rj.assign k { A with policy := rj.policy } s.clock) } :=
+            coherent_set j rj _ hc hrj st.frame.pools (congrArg (fun t => Tbl.set t j _) st.alloc) (ss.1 hok) st.free
+          have hf1 : FaultSpent { (stUpdate s j (rj.assign k { A with policy := rj.policy } s.clock)).1 with
+              alloc := Tbl.set (stUpdate s j (rj.assign k { A with policy := rj.policy } s.clock)).1.alloc j
+                (rj.assign k { A with policy := rj.policy } s.clock) } := stUpdate_spent s j _ hf
           rcases List.mem_cons.mp hm with e | hm'
           · subst e
-            exact stable t _ (rj.assign k { ({} : Attr) with policy := rj.policy } s.clock) (Tbl.get_set_self _ _ _) rfl r hr
+            exact reserveLoop_uid_stable k A ip t _ (rj.assign k { A with policy := rj.policy } s.clock)
+              (Tbl.get_set_self _ _ _) rfl r hr
           · exact ih _ hc1 hf1 ip hm' r hr hk
 
 theorem reserve_own_clears_uid (s : State) (k : Key) (hc : Coherent s) (hf : FaultSpent s) (ip : IP) (r' : Rec)
     (h : Tbl.get (reserve s k k {}).1.alloc ip = some r') (hk : r'.key = k) : r'.uid = 0 := by
   obtain ⟨r, g, kk, _⟩ := (reserve_own_keeps s k ip).1 r' h
-  exact reserveLoop_uid k (ipsOfKey s k) s hc hf ip (mem_ipsOfKey_of_get g (kk ▸ hk)) r' h hk
+  exact reserveLoop_uid k {} (ipsOfKey s k) s hc hf ip (mem_ipsOfKey_of_get g (kk ▸ hk)) r' h hk
 
 end Galaxy.Plugin.C02
